@@ -483,9 +483,12 @@ def execRequest (line : String) : Out :=
   | some (.list [.atom "parse", kind, bytes]) =>
     match parsePKind kind, bytes.toBytes? with
     | some k, some d =>
+      -- alignment independence (PROTOCOL.md §4.1): the model has no addresses, the three shifted
+      -- dumps are the normal one; not reported for inputs longer than 70000 bytes
+      let shift : Out := if d.length > 70000 then #[] else #[("shift_same", "true")]
       match k with
-      | .custom pt min => if customGrid pt min then dumpView "" k d else #[("bad-request", "custom-grid")]
-      | _ => dumpView "" k d ++ specParseLines k d
+      | .custom pt min => if customGrid pt min then dumpView "" k d ++ shift else #[("bad-request", "custom-grid")]
+      | _ => dumpView "" k d ++ shift ++ specParseLines k d
     | _, _ => #[("bad-request", "parse-args")]
   | some (.list [.atom "pad", kind, bytes, n]) =>
     match parsePKind kind, bytes.toBytes?, n.toNat? with
